@@ -957,7 +957,7 @@ def varint_gen():
 
 
 def varint_tie_modules():
-    return [m for f, m in VARINT_TIE.items() if VARINT_STATUS.get(f) == "translated"]
+    return ["Ufw.Tie.VarintLoops.Common"] + [m for f, m in VARINT_TIE.items() if VARINT_STATUS.get(f) == "translated"]
 
 
 if __name__ == "__main__":
